@@ -168,6 +168,13 @@ def run(ctx):
         ia = l.data['info']['iter'].single_atom()
         if ia is not None and ia.kind in ('list', 'tuple'):
             names |= {x.single_atom().args[0] for x in ia.args if x.single_atom() is not None and x.single_atom().kind == 'str'}
+    # (a loop over a short literal list is unrolled by the interpreter: take the attribute names from the raising comparisons)
+    for e in I.events:
+        if e.kind == 'raise':
+            for c in e.pc:
+                for a_ in T.all_atoms(c).values():
+                    if a_.kind == 'attr' and a_.args[0].key == sym('v').key:
+                        names.add(a_.args[1])
     ctx.ob('FORMULA', 'the guard compares at least df, dt, fchans and fmin with the first frame', guard,
            {'df', 'dt', 'fchans', 'fmin'} <= names, {'compared': sorted(names)}, node=guard.node, construct='compared attributes')
     ctx.clause = 'D5'
